@@ -17,9 +17,9 @@ fn describe(ctx: &mut Ctx) {
     let obs_gen = "proptest-generated ObsCase = (flavour, unique/shared start, initial value, <= 30 calls over every public entry point incl. guards held across calls (sync) and handle operations); value = (key, payload) with Eq on both and Hash on key only; every return value and poll result compared with a version-free model after every call; a third of the cases use one shared waker. Distinct = distinct serialised case. ";
     let thr = "Thread engine: fixed 2-3 thread programs whose complete release-order space at the __verif_hooks pause points is enumerated by stateless DFS (each schedule = one evaluation), proptest-generated directed programs (<= 3 threads x <= 3 ops, random schedule prefix), and proptest-generated free-running programs (2-4 threads x <= 6 ops, each executed 60 times on one set of worker threads; counted in thread_executions_judged). ";
     let (rule, assumptions): (String, Vec<&str>) = match ctx.prop {
-        Prop::C01 => (format!("{obs_gen}Plus every history of <= 4 (quick) / 5 (thorough) calls from a 14-call alphabet (enumerated). Non-trivial = the history contains a conditional setter that did not store, a poll that became ready after >= 2 intervening updates, and a get/next_now followed by a poll of the same subscriber."), vec!["std's DefaultHasher::new() is keyed with constants (the harness computes the same hash)"]),
-        Prop::C02 => (format!("{obs_gen}{thr}Oracle: after every notifying update / closing drop the latest Pending waker of every pending subscriber has fired (single thread), and no poll returns Ready after a Pending poll whose waker was not woken since (all engines). Non-trivial (single thread) = >= 2 subscribers pending at the moment of an update or close; (threads) = a poll that returned Ready after a Pending poll of the same subscriber."), vec!["between pause points the OS schedules; a thread not reaching a pause point within 15 ms is presumed blocked (affects only which schedule is explored)"]),
-        Prop::C03 => (format!("{obs_gen}{thr}Oracle: poll == None iff the model's owner count is 0, upgrade succeeds iff an owner exists; threads: stream ended <=> no owner survived the join, and it ends once the rest is dropped. Non-trivial (single thread) = >= 2 handles dropped with a poll and a close or successful upgrade; (threads) = >= 2 drop/upgrade operations in the program."), vec!["as C02"]),
+        Prop::C01 => (format!("{obs_gen}Plus every history of <= 4 (quick) / 5 (thorough) calls from a 14-call alphabet (enumerated). Non-trivial = the history contains a conditional setter that did not store, a poll that became ready after >= 2 intervening updates, and a get/next_now followed by a poll of the same subscriber. Also (since seeding round 9): the async-lock guard engine (guards held across other calls; its value and readiness rules are tagged C01; non-trivial there = a task queued behind a write guard completed after the release) and the free-running thread programs of engine C (60 executions each; rules tagged C01: a subscriber created by subscribe() after the last write completed is not ready, a value written once is yielded at most once per subscriber; non-trivial there = operations of different threads overlap)."), vec!["std's DefaultHasher::new() is keyed with constants (the harness computes the same hash)"]),
+        Prop::C02 => (format!("{obs_gen}{thr}Oracle: after every notifying update / closing drop the latest Pending waker of every pending subscriber has fired (single thread), and no poll returns Ready after a Pending poll whose waker was not woken since (all engines). Non-trivial (single thread) = >= 2 subscribers pending at the moment of an update or close; (threads) = a poll that returned Ready after a Pending poll of the same subscriber. Also the async-lock guard engine (rules tagged C02: with no guard alive and the executor stalled no pending poll may have an update or the end available; after the owners are dropped with subscriber-side permits outstanding every pending poll is woken)."), vec!["between pause points the OS schedules; a thread not reaching a pause point within 15 ms is presumed blocked (affects only which schedule is explored)"]),
+        Prop::C03 => (format!("{obs_gen}{thr}Oracle: poll == None iff the model's owner count is 0, upgrade succeeds iff an owner exists; threads: stream ended <=> no owner survived the join, and it ends once the rest is dropped. Non-trivial (single thread) = >= 2 handles dropped with a poll and a close or successful upgrade; (threads) = >= 2 drop/upgrade operations in the program. Also async-flavour handle histories and the async-lock guard engine with its two finales (owners dropped after every guard was released; owners dropped while subscribers hold read guards or granted-but-unpolled lock requests)."), vec!["as C02"]),
         Prop::C04 => (format!("{thr}Recorded invocation/response tickets from one atomic counter; Wing-Gong search against a sequential register (set returns previous, set_if_not_eq, update adds, reads return latest), ending on the final value; guard sections: value stable inside a read guard, no operation both invoked and completed inside another thread's guard interval; a subscriber that is Pending after the join saw the final value last. Plus single-threaded histories in which try_read/try_write must refuse while the harness holds guards. Non-trivial = operations of different threads overlap in ticket time (threads) / a try_lock was refused (single thread)."), vec!["verdicts come only from recorded histories; timing changes coverage, not soundness"]),
         Prop::C05 => (format!("{vec_gen}Raw subscribers (no adapter), eager or lag-bounded polling. Non-trivial = a mid-history subscription, a committed transaction of >= 2 diffs, and a poll with >= 2 updates pending."), vec!["message boundaries are observed through a harness-internal batched probe subscriber (85-100 % of the cases)"]),
         Prop::C06 => (format!("{vec_gen}Raw subscribers, unconstrained lag, capacities 1..64. Non-trivial = at least one Reset delivered and another subscriber of the same case that never lagged."), vec!["tokio's broadcast channel may hold more than `capacity` messages (rounding up): only Reset => lag is asserted, never the converse"]),
@@ -32,7 +32,7 @@ fn describe(ctx: &mut Ctx) {
         Prop::C13 => (format!("{vec_gen}Batched pipelines of 0-3 stages, transaction-heavy; fixed-parameter pipelines get an unbatched twin. Non-trivial = a source batch of >= 2 diffs reached an adapter, or a multi-diff commit happened in a case whose twin was compared."), vec![]),
         Prop::C14 => (format!("{vec_gen}All stream kinds, eager-heavy polling. Non-trivial = a limit change and a source operation both arrived while the stream was Pending (or, without dynamic stages, >= 4 polls)."), vec![]),
         Prop::C15 => (format!("{vec_gen}Static Head/Tail alone and in chains; the bound is checked after every single diff by the tap. Non-trivial = an inserting diff arrived while the bounded view was full."), vec![]),
-        Prop::C16 => (format!("{obs_gen}Flavour Both: the case runs on the sync and on the async-lock flavour and the transcripts must be identical. Plus async-only histories with guards held across calls (AsyncCase: acquire/release guards, writer/reader/subscriber tasks under a hand-rolled executor). Non-trivial = the history contains a close and >= 2 polls (differential) / a task queued behind a guard completed after release or a subscriber polled under a write guard became ready (guards)."), vec!["the executor re-polls every woken task before anything is judged stuck"]),
+        Prop::C16 => (format!("{obs_gen}Flavour Both: the case runs on the sync and on the async-lock flavour and the transcripts must be identical. Plus async-only histories with guards held across calls (AsyncCase: acquire/release guards, writer/reader/subscriber tasks under a hand-rolled executor). Non-trivial = the history contains a close and >= 2 polls (differential) / a task queued behind a guard completed after release or a subscriber polled under a write guard became ready, or the owners were dropped while subscriber-side permits (read guards, granted lock requests) were outstanding (guards)."), vec!["the executor re-polls every woken task before anything is judged stuck"]),
         Prop::C17 => (format!("{vec_gen}With explicit out-of-range calls and traversals. Non-trivial = >= 1 out-of-range call and a traversal in which a removal is followed by a non-keep decision."), vec!["the library's bounds panics are recognised by their wording (they are #[track_caller])"]),
         Prop::C19 => (format!("{obs_gen}Handle-heavy histories, both flavours; all count functions compared after every call. Non-trivial = an into_shared or an upgrade, a subscriber clone and a dropped handle. Async: subscriber_count/strong_count equal to the K3 signature are accepted (excluded_known)."), vec!["K3: async-lock subscribers count twice"]),
         Prop::C20 => (format!("{vec_gen}{obs_gen}Every element/value is an instrumented instance (fresh serial per construction and clone; registry per case). Non-trivial = a multi-diff message consumed across polls, a subscriber dropped with a backlog or mid-message or inside a transaction, a lagged subscriber at drop (vector cases); into_shared with live subscribers or a subscriber clone (observable cases)."), vec![]),
@@ -371,6 +371,17 @@ fn obs_check(ctx: &mut Ctx) {
     if matches!(prop, Prop::C02 | Prop::C03) {
         thr_phases(ctx);
     }
+    if prop == Prop::C01 {
+        // "the value most recently stored" and "ready exactly for unobserved updates" also when the
+        // calls come from several threads (subscribe racing a writer, polls racing sets): the
+        // free-running programs of the thread engine, judged by its C01-tagged rules
+        let run_free = move |c: &ThrCase| engine_thr::run_reps(c, prop, 60);
+        let n = ctx.pick(2_000, 60_000);
+        let saved = ctx.threads;
+        ctx.threads = saved.min(8);
+        ctx.random("free-running-threads", "thr", &|| engine_thr::case(false, 4, 6), &run_free, n);
+        ctx.threads = saved;
+    }
     let run = move |c: &ObsCase| engine_obs::run(c, prop);
     ctx.regress_dir("regress", "obs", &run);
     ctx.known_findings("obs", &run);
@@ -422,6 +433,13 @@ fn obs_check(ctx: &mut Ctx) {
         let run = move |c: &crate::engine_async::AsyncCase| crate::engine_async::run(c, prop);
         ctx.regress_dir("regress", "async", &run);
         let n = ctx.pick(150_000, 2_000_000);
+        ctx.random("async-guards-held-across-calls", "async", &|| crate::engine_async::case(), &run, n);
+    }
+    if matches!(prop, Prop::C01 | Prop::C02 | Prop::C03) {
+        // the async-lock flavour is an Observable / SharedObservable too: the value, wake-up and
+        // end-of-stream rules of this property, on histories with guards held across other calls
+        let run = move |c: &crate::engine_async::AsyncCase| crate::engine_async::run(c, prop);
+        let n = ctx.pick(60_000, 1_000_000);
         ctx.random("async-guards-held-across-calls", "async", &|| crate::engine_async::case(), &run, n);
     }
 }
